@@ -118,10 +118,10 @@ CLAIMS = {
     "C04": dict(
         text=("Panic sites are explicit Res.panic branches of the model. Theorems: a literal transcription of base64 decode_inner with every slice index / copy_from_slice as a potential panic equals the total mirror (decodeVecLit_eq) and never panics; "
               "no-panic theorems for every FromStr, unseal (local/public), PIE/PBKW unwrap, PKE unseal and key decoder of every back end; accepted_key_usable (the assert in compressed_pub_key is unreachable after the infinity fix); "
-              "seal_no_panic_from_nonce; the aws-lc wrapper functions transcribed as action lists with an exhaustive check over every failure point (no double free / use after free / leak / dangling ownership) and the set_len contract of append_to_vec. "
+              "seal_no_panic_from_nonce; the aws-lc wrapper functions as ownership action lists, BOTH hand-transcribed (ffi_paths_balanced) AND regenerated from lc/mod.rs on every run by a translator (tools/ffiscan.py -> Extracted/Ffi.lean: extracted_ffi_paths_balanced, every aws-lc call treated as a possible exit), with the checker's verdict proved sound (run_no_double_free, run_no_leak, ok_sound_all: frees.Nodup and everything still allocated at exit is owned by the returned value, for every failure index); wrapper semantics of lc/ptr.rs re-read (ffi_wrappers_as_modelled); the only unsafe operation outside lc/ is from_utf8_unchecked on encoder output (unsafe_calls_outside_ffi + write_to_fmt_utf8_safe); the set_len contract of append_to_vec. "
               "Tie: ~100k malformed inputs per run under catch_unwind (all FromStr, every payload length 0..700, every blob length 0..300, all key strings, accepted keys re-used), process death bisected; supporting run of the aws-lc / libsodium inputs under valgrind memcheck."),
-        note=BASE_NOTE + "PARTIAL: aborts inside aws-lc/libsodium, allocator failure, stack overflow in dependencies and memory safety of the C libraries cannot be exhibited; the FFI model is a hand transcription of lc/mod.rs tied only by crash observation.",
-        technique="Lean 4 proof (explicit panic branches shown unreachable; exhaustive path check of the FFI ownership model by decide) + malformed-input correspondence under catch_unwind",
+        note=BASE_NOTE + "PARTIAL: aborts inside aws-lc/libsodium, allocator failure, stack overflow in dependencies and memory safety of the C libraries cannot be exhibited; the FFI ownership model is regenerated from lc/mod.rs by a syntactic translator with a trusted classification table of the aws-lc API and linearised control flow (DESIGN 12.9).",
+        technique="Lean 4 proof (explicit panic branches shown unreachable; FFI ownership model regenerated from the source by a translator, exhaustive path check by decide with a soundness theorem for the checker) + malformed-input correspondence under catch_unwind + valgrind memcheck (supporting)",
         design="§6 C04"),
     "C16": dict(
         text=("Randomised operations of the getrandom-based back ends written against an explicit random source (list of answers, each bytes or failure). Theorems: fail-closed for encrypt, PIE, PBKW (both draw indices), key sealing, key generation and "
@@ -132,10 +132,10 @@ CLAIMS = {
         design="§6 C16"),
     "C17": dict(
         text=("System model: one shared immutable key, threads running operations atomically on it. Invariant by induction over schedules (inv_run): key_never_modified, interleaving_independent (every complete schedule gives each thread its sequential results), "
-              "partial_results_are_sequential_prefix, schedules_agree, after_failures_same; clone paths of the aws-lc wrappers balanced (from the FFI model). "
+              "partial_results_are_sequential_prefix, schedules_agree, after_failures_same; clone paths of the aws-lc wrappers balanced (hand model and the action lists regenerated from lc/mod.rs). The model's premise (an operation is a function of the key) is re-read from the source on every run: no_shared_mutable_state (token scan of all eight library crates for UnsafeCell-based types, static mut, thread locals, lazily initialised globals, locks, atomics: tools/srcscan.py -> Extracted/Source.lean), unsafe_confined (forbid/deny(unsafe_code) in every crate, re-allowed only in base64.rs and lc/mod.rs), send_sync_keys_are_read_only (the only unsafe impls are Send/Sync for the two EC_KEY wrappers and no function writes through or releases an aws-lc object it holds by shared reference). "
               "Tie: 2/4/8/16 threads sharing Arc'd keys on every back end running mixed succeeding and failing operations, each result checked against the sequential oracle, key fingerprints compared before/after and against a fresh copy."),
         note=BASE_NOTE + "PARTIAL: data races inside aws-lc/libsodium and the soundness of `unsafe impl Send/Sync` cannot be exhibited by the model; it shows the Rust side keeps no shared mutable state and ownership is unique.",
-        technique="Lean 4 proof (invariant over all schedules by induction) + threaded oracle runs",
+        technique="Lean 4 proof (invariant over all schedules by induction; premise decided over facts regenerated from the source by translators) + threaded oracle runs",
         design="§6 C17"),
     "C18": dict(
         text=("The trait-implementation table is re-read from rustc on every run (inherent-const-shadows-trait-const probes) into Extracted/Impls.lean; Types.lean transcribes the bounds of every catalogued operation; types_match_policy: for EVERY operation at EVERY "
